@@ -137,12 +137,12 @@ func (s *statsManager) messageReceived(qos uint8, clientID string) {
 		atomic.AddUint64(&s.totalStats.MessageStats.Qos1.ReceivedTotal, 1)
 		s.clientMu.Lock()
 		defer s.clientMu.Unlock()
-		atomic.AddUint64(&s.getClientStats(clientID).MessageStats.Qos0.ReceivedTotal, 1)
+		atomic.AddUint64(&s.getClientStats(clientID).MessageStats.Qos1.ReceivedTotal, 1)
 	case packets.Qos2:
 		atomic.AddUint64(&s.totalStats.MessageStats.Qos2.ReceivedTotal, 1)
 		s.clientMu.Lock()
 		defer s.clientMu.Unlock()
-		atomic.AddUint64(&s.getClientStats(clientID).MessageStats.Qos0.ReceivedTotal, 1)
+		atomic.AddUint64(&s.getClientStats(clientID).MessageStats.Qos2.ReceivedTotal, 1)
 	}
 }
 
@@ -157,12 +157,12 @@ func (s *statsManager) messageSent(qos uint8, clientID string) {
 		atomic.AddUint64(&s.totalStats.MessageStats.Qos1.SentTotal, 1)
 		s.clientMu.Lock()
 		defer s.clientMu.Unlock()
-		atomic.AddUint64(&s.getClientStats(clientID).MessageStats.Qos0.SentTotal, 1)
+		atomic.AddUint64(&s.getClientStats(clientID).MessageStats.Qos1.SentTotal, 1)
 	case packets.Qos2:
 		atomic.AddUint64(&s.totalStats.MessageStats.Qos2.SentTotal, 1)
 		s.clientMu.Lock()
 		defer s.clientMu.Unlock()
-		atomic.AddUint64(&s.getClientStats(clientID).MessageStats.Qos0.SentTotal, 1)
+		atomic.AddUint64(&s.getClientStats(clientID).MessageStats.Qos2.SentTotal, 1)
 	}
 }
 
